@@ -198,7 +198,8 @@ def gen_cases(rng, rounds, big=False):
         base = {"net": j, "ssa_path": ssa}
 
         def C(api, presliced=None, **o):
-            c = dict(base, api=api, seed=rng.randrange(10 ** 6), opts=o)  # `base` is looked up at call time
+            # `base` is looked up at call time; seed 0 (falsy) is an edge of `get_rng`'s dispatch
+            c = dict(base, api=api, seed=rng.choice([0, 0, 1] + [rng.randrange(10 ** 6)] * 17), opts=o)
             if presliced:
                 c["presliced"] = presliced
             cases.append(c)
@@ -505,7 +506,7 @@ def run(ctx, drv):
     verd = static_side(ctx, drv)
     get_rng_tie(ctx, drv)
     nruns = 3 if ctx.tier == "quick" else 6
-    rounds = 20 if ctx.tier == "quick" else 150
+    rounds = 40 if ctx.tier == "quick" else 200
     failing = set()
     done = 0
     while done < rounds and ctx.time_left() > 60:
